@@ -654,8 +654,15 @@ Definition sx_frame (f : pframe) : sx :=
   SL [sbool (pf_fin f); sN (pf_rsv f); sN (pf_op f); sbool (pf_masked f); SB (pf_key f);
       sN (pf_form f); sN (pf_len f); SB (pf_payload f)].
 
+(* opening handshake, RFC 6455 section 4: which tampered exchanges must be refused
+   (kind 0: server responses seen by the client; kind 1: client requests seen by the server) *)
+Definition hs_expect (kind tamper : Z) : Z :=
+  if (kind =? 0)%Z then (if (tamper =? 0)%Z || (tamper =? 7)%Z then 0 else 1)%Z
+  else (if (tamper =? 0)%Z || (tamper =? 7)%Z || (tamper =? 8)%Z || (tamper =? 9)%Z then 0 else 1)%Z.
+
 Definition run_c13 (c : sx) : sx :=
   match c with
+  | SL [SZ 4; SZ kind; SZ tamper] => s_ok [SZ (hs_expect kind tamper)]
   | SL [SZ 0; SZ r; SZ b; SZ cp; SL pms; SL ops; SL ks; SZ _] =>
       run_session (zb r) (Z.to_N b) (zb cp) (sx_pms pms) ops (sx_chunks ks)
   | SL [SZ 1; SB key; SZ p; SZ align; SB data] =>
